@@ -9,40 +9,40 @@ Theorem C07_set_transform_ok : forall (w : wcs) (f g : fref) (t : option model) 
   wf w -> (S i < length (pipeline w))%nat ->
   fname f = nth i (names w) 0 -> fname g = nth (S i) (names w) 0 ->
   m_set_transform w f g t =
-  MOk (set_pipeline w (list_set (pipeline w) i (set_step_transform (nth i (pipeline w) dstep) t))).
+  MOk (set_approx (set_pipeline w (list_set (pipeline w) i (set_step_transform (nth i (pipeline w) dstep) t))) None).
 Proof. exact set_transform_ok. Qed.
 
 Theorem C07_insert_transform_before : forall (w : wcs) (f : fref) (a b : model) (i : nat),
   wf w -> (S i < length (pipeline w))%nat -> fname f = nth (S i) (names w) 0 ->
   step_transform (nth i (pipeline w) dstep) = Some a ->
   m_insert_transform w f (Some b) false =
-  MOk (set_pipeline w (list_set (pipeline w) i
-        (set_step_transform (nth i (pipeline w) dstep) (Some {| te := Pipe (te a) (te b); mbox := None |})))).
+  MOk (set_approx (set_pipeline w (list_set (pipeline w) i
+        (set_step_transform (nth i (pipeline w) dstep) (Some {| te := Pipe (te a) (te b); mbox := None |})))) None).
 Proof. exact insert_transform_before. Qed.
 
 Theorem C07_insert_transform_after : forall (w : wcs) (f : fref) (a b : model) (i : nat),
   wf w -> (i < length (pipeline w))%nat -> fname f = nth i (names w) 0 ->
   step_transform (nth i (pipeline w) dstep) = Some a ->
   m_insert_transform w f (Some b) true =
-  MOk (set_pipeline w (list_set (pipeline w) i
-        (set_step_transform (nth i (pipeline w) dstep) (Some {| te := Pipe (te b) (te a); mbox := None |})))).
+  MOk (set_approx (set_pipeline w (list_set (pipeline w) i
+        (set_step_transform (nth i (pipeline w) dstep) (Some {| te := Pipe (te b) (te a); mbox := None |})))) None).
 Proof. exact insert_transform_after. Qed.
 
 Theorem C07_insert_frame_new_input : forall (w : wcs) (n id : Z) (t : option model) (g : fref) (j : nat),
   wf w -> (j < length (pipeline w))%nat -> fname g = nth j (names w) 0 -> ~ In n (names w) ->
   m_insert_frame w (FObj n id) t g =
-  MOk (setattr (set_pipeline w (firstn j (pipeline w) ++ [mk_step (FObj n id) t] ++ skipn j (pipeline w)))
-               (FStr n) (Some (FObj n id))).
+  MOk (set_approx (setattr (set_pipeline w (firstn j (pipeline w) ++ [mk_step (FObj n id) t] ++ skipn j (pipeline w)))
+               (FStr n) (Some (FObj n id))) None).
 Proof. exact insert_frame_new_input. Qed.
 
 Theorem C07_insert_frame_new_output : forall (w : wcs) (f : fref) (t : option model) (n id : Z) (i : nat),
   wf w -> (i < length (pipeline w))%nat -> fname f = nth i (names w) 0 -> ~ In n (names w) ->
   m_insert_frame w f t (FObj n id) =
-  MOk (setattr (set_pipeline w (firstn i (pipeline w) ++
+  MOk (set_approx (setattr (set_pipeline w (firstn i (pipeline w) ++
                                 [mk_step (step_frame (nth i (pipeline w) dstep)) t;
                                  mk_step (FObj n id) (step_transform (nth i (pipeline w) dstep))] ++
                                 skipn (S i) (pipeline w)))
-               (FStr n) (Some (FObj n id))).
+               (FStr n) (Some (FObj n id))) None).
 Proof. exact insert_frame_new_output. Qed.
 
 (* rejected edits leave no trace: the state carried by every raise is the state on entry *)
@@ -77,7 +77,7 @@ Proof. exact names_list_set. Qed.
 (* non-vacuity *)
 Example C07_nonvacuous :
   let L i := Some {| te := Leaf i true; mbox := None |} in
-  let w := {| pipeline := [mk_step (FObj 1 11) (L 0); mk_step (FStr 2) (L 1); mk_step (FObj 3 33) None]; attrs := [] |} in
+  let w := (mk_wcs [mk_step (FObj 1 11) (L 0); mk_step (FStr 2) (L 1); mk_step (FObj 3 33) None] []) in
   wf w /\ status_of (m_set_transform w (FStr 2) (FStr 1) (L 5)) = Some ValueError /\
   status_of (m_insert_transform w (FStr 1) (L 5) false) = Some TypeError /\
   status_of (m_insert_frame w (FStr 9) (L 5) (FStr 2)) = Some ValueError /\
